@@ -13,6 +13,7 @@ Mirrors, line by line:
                  new_interactive      -> `accept`      (first free slot >= 1, table grows by 50; repaired code)
                  remove_interactive   -> `removeUser`
                  set_call (input_to / get_char) -> `setCall` (repaired code: typed-ahead text is flagged at once)
+                 call_function_interactive      -> `endInput` (repaired code: raw single-char input is reframed)
   lib/efuns/command.c f_command       -> `Op.ecmd` in `runOps` (process_command directly: no turn involved)
 
 Abstractions: `interactive_t.text[text_start..text_end)` is a `List Char` (NUL = end of a command); the iflags that
@@ -147,6 +148,18 @@ def telnetNeg (t : List Char) : List Char :=
 /-- copy_chars in state TS_DATA for the bytes the harness sends (`~` = CR LF sent together) -/
 def copyChars (single : Bool) (data : List Char) : List Char :=
   data.flatMap (fun c => if c == '~' then (if single then [CR, LF] else [' ', BS, NUL]) else [c])
+
+/-- reframe_single_char_input: text that arrived in single-char mode (raw CR LF) gets the line-mode framing when the
+    mode ends; a lone CR is dropped -/
+def reframeAux : Bool → List Char → List Char
+  | _, [] => []
+  | true, c :: r =>
+    if c == LF then ' ' :: BS :: NUL :: reframeAux false r
+    else if c == CR then reframeAux true r
+    else c :: reframeAux false r
+  | false, c :: r => if c == CR then reframeAux true r else c :: reframeAux false r
+
+def reframe (b : List Char) : List Char := reframeAux false b
 
 /-! ### connection table -/
 
@@ -283,6 +296,14 @@ def runOps (sc : Scripts) : Nat → World → Nat → List Op → World × List 
 /-- fuel for scripts (the real limit is the evaluation cost) -/
 def scriptFuel : Nat := 100000
 
+/-- call_function_interactive on the record of the user: the pending input_to / get_char is consumed; when
+    single-char mode was on it ends and the buffered text is reframed (and flagged if that completes a command) -/
+def endInput (us : U) : U :=
+  if us.single then
+    { us with inputTo := false, single := false, buf := reframe us.buf,
+              cmdInBuf := us.cmdInBuf || hasCmd false (reframe us.buf) }
+  else { us with inputTo := false }
+
 /-- process_user_command: `true` = a command was processed -/
 def processUserCommand (sc : Scripts) (w : World) : World × List Ev × Bool :=
   if w.crashed then (w, [], false) else
@@ -291,7 +312,7 @@ def processUserCommand (sc : Scripts) (w : World) : World × List Ev × Bool :=
   | (w1, some (u, text)) =>
     let us := w1.users.get u
     -- call_function_interactive: the pending input_to/get_char is consumed, single-char mode ends
-    let w2 := if us.inputTo then { w1 with users := upd w1.users u { us with inputTo := false, single := false } } else w1
+    let w2 := if us.inputTo then { w1 with users := upd w1.users u (endInput us) } else w1
     let (w3, e3) := runOps sc scriptFuel w2 u (sc u text)
     (w3, Ev.cmd u text :: e3, true)
 
